@@ -2257,3 +2257,35 @@ EXT["math.ceil"] = _math1("ceil", lambda it, v: EXT["numpy.ceil"](it, v))
 EXT["math.gamma"] = _math1("gamma", uf1("gamma"))
 EXT["math.hypot"] = lambda it, x, y: r_sqrt(s_add(s_mul(x, x), s_mul(y, y)), it.ctx)
 EXT["numpy.hypot"] = lambda it, x, y, **kw: map2(it, x, y, lambda u, v: r_sqrt(s_add(s_mul(u, u), s_mul(v, v)), it.ctx), "float") if (isinstance(x, Arr) or isinstance(y, Arr)) else r_sqrt(s_add(s_mul(x, x), s_mul(y, y)), it.ctx)
+
+
+@ext("numpy.result_type", "numpy.promote_types")
+def _result_type(it, *args, **kw):
+    """the promoted dtype, at the granularity of the value model (bool < int < float < complex); widths are below A-REAL / A-INT"""
+    order = ["bool", "int", "float", "complex"]
+    best = "bool"
+    for a in args:
+        if isinstance(a, Arr):
+            n = a.dtype
+        elif isinstance(a, (DType, Builtin, ExtRef, str)):
+            n = dtype_name(a)
+        elif is_scalar(a):
+            n = elem_dtype(a)
+        else:
+            raise Unsupported("result_type of %s" % type(a).__name__)
+        if n not in order:
+            raise Unsupported("result_type of dtype %r" % (n,))
+        if order.index(n) > order.index(best):
+            best = n
+    return DType({"float": "float64", "int": "int64", "complex": "complex128", "bool": "bool"}[best])
+
+
+@ext("scipy.special.eval_jacobi")
+def _eval_jacobi(it, n, alpha, beta, x, **kw):
+    """the Jacobi polynomial P_n^(alpha,beta)(x), elementwise in x: an uninterpreted function of its four arguments (library contract)"""
+    f = UF("eval_jacobi", 4)
+    if isinstance(n, Arr) or isinstance(alpha, Arr) or isinstance(beta, Arr):
+        raise Unsupported("eval_jacobi with array-valued degree / parameters")
+    if isinstance(x, Arr):
+        return map1(it, x, lambda v: f(zr(n), zr(alpha), zr(beta), zr(v)), "float")
+    return f(zr(n), zr(alpha), zr(beta), zr(x))
